@@ -8,6 +8,7 @@ import Mathlib.Tactic.Zify
 import Mathlib.Tactic.NormNum
 import Mathlib.Tactic.LinearCombination
 import Mathlib.Data.Int.ModEq
+import Mathlib.Data.Nat.ModEq
 import Mathlib.Data.Nat.GCD.Basic
 namespace Mpir.DivWord
 open Mpir
@@ -2779,6 +2780,548 @@ theorem hensel_exact (x : List Nat) (d s cin : Nat) (res : List Nat × Nat) (h :
   have := exact_finish d (val x - cin) Q res.2 x.length hodd e' hQ hdvd
   refine ⟨?_, hL, hlen⟩
   rw [hv, this, Nat.mul_div_cancel_left _ hd0]
+
+
+/-! ### mpn_mod_1_1/2/3 folding and mpn_divrem_euclidean_r_1 -/
+
+/-- two-limb value of a (high, low) pair -/
+def v2 (p : Nat × Nat) : Nat := p.1 * B + p.2
+
+/-- a proper two-limb pair with value V -/
+def Pair2 (p : Nat × Nat) (V : Nat) : Prop := p.1 < B ∧ p.2 < B ∧ v2 p = V
+
+theorem add2_noovf (ah al bh bl : Nat) (h : ah * B + al + (bh * B + bl) < B * B) :
+    Pair2 (add_ssaaaa ah al bh bl) (ah * B + al + (bh * B + bl)) := by
+  have hB := B_pos
+  rw [add_ssaaaa_eq]
+  have hq : (ah * B + al + (bh * B + bl)) / B < B := (Nat.div_lt_iff_lt_mul hB).mpr h
+  refine ⟨?_, Nat.mod_lt _ hB, ?_⟩
+  · show (ah * B + al + (bh * B + bl)) / B % B < B
+    exact Nat.mod_lt _ hB
+  · show (ah * B + al + (bh * B + bl)) / B % B * B + (ah * B + al + (bh * B + bl)) % B = _
+    rw [Nat.mod_eq_of_lt hq]; exact Nat.div_add_mod' _ _
+
+theorem umul_pair (a b : Nat) (ha : a < B) (hb : b < B) : Pair2 (umul_ppmm a b) (a * b) := by
+  have hB := B_pos
+  rw [umul_ppmm_eq]
+  refine ⟨?_, Nat.mod_lt _ hB, Nat.div_add_mod' _ _⟩
+  show a * b / B < B
+  rw [Nat.div_lt_iff_lt_mul hB]
+  have h1 : a * b ≤ a * B := Nat.mul_le_mul_left _ (Nat.le_of_lt hb)
+  have h2 : a * B < B * B := Nat.mul_lt_mul_of_pos_right ha hB
+  omega
+
+theorem BB_sub : (B - 1) * (B - 1) + B ≤ B * B := by rw [B_eq]; norm_num
+
+theorem mul_limbs_le (a b : Nat) (ha : a < B) (hb : b < B) : a * b ≤ (B - 1) * (B - 1) :=
+  Nat.mul_le_mul (by omega) (by omega)
+
+theorem mulAddLimb_pair (a b x : Nat) (ha : a < B) (hb : b < B) (hx : x < B) :
+    Pair2 (mulAddLimb a b x) (a * b + x) := by
+  obtain ⟨p1, p2, p3⟩ := umul_pair a b ha hb
+  have hab := mul_limbs_le a b ha hb
+  have hBB := BB_sub
+  simp only [v2] at p3
+  have := add2_noovf (umul_ppmm a b).1 (umul_ppmm a b).2 0 x (by omega)
+  rw [Nat.zero_mul, Nat.zero_add, p3] at this
+  exact this
+
+/-- ⟨s⟩ + a·b without overflow -/
+theorem accMul_pair (s : Nat × Nat) (V a b : Nat) (hs : Pair2 s V) (ha : a < B) (hb : b < B) (hlt : V + a * b < B * B) :
+    Pair2 (accMul s a b) (V + a * b) := by
+  obtain ⟨p1, p2, p3⟩ := umul_pair a b ha hb
+  obtain ⟨s1, s2, s3⟩ := hs
+  simp only [v2] at p3 s3
+  have := add2_noovf s.1 s.2 (umul_ppmm a b).1 (umul_ppmm a b).2 (by omega)
+  rw [s3, p3] at this
+  exact this
+
+/-- a·b + ⟨s⟩ without overflow -/
+theorem mulAcc_pair (a b : Nat) (s : Nat × Nat) (V : Nat) (hs : Pair2 s V) (ha : a < B) (hb : b < B)
+    (hlt : a * b + V < B * B) : Pair2 (mulAcc a b s) (a * b + V) := by
+  obtain ⟨p1, p2, p3⟩ := umul_pair a b ha hb
+  obtain ⟨s1, s2, s3⟩ := hs
+  simp only [v2] at p3 s3
+  have := add2_noovf (umul_ppmm a b).1 (umul_ppmm a b).2 s.1 s.2 (by omega)
+  rw [s3, p3] at this
+  exact this
+
+theorem foldFin_pair (db0 th tl : Nat) (hdb : db0 < B) (hth : th < B) (htl : tl < B) :
+    (foldFin db0 th tl).2 * B + (foldFin db0 th tl).1 = th * db0 + tl ∧ (foldFin db0 th tl).1 < B := by
+  obtain ⟨a, b, c⟩ := mulAddLimb_pair th db0 tl hth hdb htl
+  exact ⟨c, b⟩
+
+/-- the closing division of the mpn_mod_1_k_wrap functions -/
+theorem modWrapFinal_spec (sl sh d c : Nat) (hc : c ≤ 63) (h1 : B / 2 ≤ d * 2 ^ c) (h2 : d * 2 ^ c < B)
+    (hsl : sl < B) (hsh : sh < d) :
+    modWrapFinal sl sh c (d * 2 ^ c) (invert_limb (d * 2 ^ c)) = (sh * B + sl) % d := by
+  have hB := B_pos
+  have hp : 0 < 2 ^ c := by positivity
+  unfold modWrapFinal
+  obtain ⟨e1, e2⟩ := limb_split sl c hc
+  have hhi := limb_hi_lt sl c hsl (by omega)
+  have hsum := limb_split_sum sl c (by omega)
+  have hshc : sh * 2 ^ c < d * 2 ^ c := Nat.mul_lt_mul_of_pos_right hsh hp
+  rw [e1, e2, Nat.shiftLeft_eq, Nat.mod_eq_of_lt (by omega)]
+  have hor : sh * 2 ^ c ||| sl / 2 ^ (64 - c) = sh * 2 ^ c + sl / 2 ^ (64 - c) := by
+    rw [← Nat.shiftLeft_eq]; exact (Nat.shiftLeft_add_eq_or_of_lt hhi _).symm
+  rw [hor]
+  have hnh : sh * 2 ^ c + sl / 2 ^ (64 - c) < d * 2 ^ c := by
+    have : (sh + 1) * 2 ^ c ≤ d * 2 ^ c := Nat.mul_le_mul_right _ hsh
+    have : (sh + 1) * 2 ^ c = sh * 2 ^ c + 2 ^ c := by ring
+    omega
+  have hlo : sl % 2 ^ (64 - c) * 2 ^ c < B := by
+    rw [B_split c (by omega)]
+    exact Nat.mul_lt_mul_of_pos_right (Nat.mod_lt _ (by positivity)) hp
+  rw [udiv_qrnnd_preinv_eq _ _ _ h1 h2 hnh hlo, udiv_qrnnd_snd]
+  have : (sh * 2 ^ c + sl / 2 ^ (64 - c)) * B + sl % 2 ^ (64 - c) * 2 ^ c = (sh * B + sl) * 2 ^ c := by
+    have : (sh * B + sl) * 2 ^ c = sh * 2 ^ c * B + sl * 2 ^ c := by ring
+    rw [this, ← hsum]; ring
+  rw [this]
+  exact shifted_rem _ _ _
+
+/-- the power-of-B residues computed by the wraps: one preinv division per power -/
+theorem wrap_pow_step (d c X : Nat) (h1 : B / 2 ≤ d * 2 ^ c) (h2 : d * 2 ^ c < B) (hX : X < d) :
+    (udiv_qrnnd_preinv (X * 2 ^ c) 0 (d * 2 ^ c) (invert_limb (d * 2 ^ c))).2 = ((X * B) % d) * 2 ^ c := by
+  have hp : 0 < 2 ^ c := by positivity
+  have hlt : X * 2 ^ c < d * 2 ^ c := Nat.mul_lt_mul_of_pos_right hX hp
+  rw [udiv_qrnnd_preinv_eq _ _ _ h1 h2 hlt B_pos, udiv_qrnnd_snd, Nat.add_zero]
+  have : X * 2 ^ c * B = (X * B) * 2 ^ c := by ring
+  rw [this, Nat.mul_mod_mul_right]
+
+theorem wrap_pow_first (d : Nat) (hd0 : 0 < d) (hdB : d < B) :
+    (udiv_qrnnd_preinv ((1 <<< count_leading_zeros d) % B) 0 (d * 2 ^ count_leading_zeros d)
+      (invert_limb (d * 2 ^ count_leading_zeros d))).2 = (B % d) * 2 ^ count_leading_zeros d := by
+  obtain ⟨hc, h1, h2⟩ := clz_spec d (by omega) hdB
+  by_cases hd1 : d = 1
+  · subst hd1; decide
+  · have hp : 0 < 2 ^ count_leading_zeros d := by positivity
+    have h1c : (1 <<< count_leading_zeros d) % B = 1 * 2 ^ count_leading_zeros d := by
+      rw [Nat.shiftLeft_eq]
+      apply Nat.mod_eq_of_lt
+      have : 1 * 2 ^ count_leading_zeros d < d * 2 ^ count_leading_zeros d :=
+        Nat.mul_lt_mul_of_pos_right (by omega) hp
+      omega
+    rw [h1c, wrap_pow_step d _ 1 h1 h2 (by omega), Nat.one_mul]
+
+theorem shr_cancel (Y c : Nat) : (Y * 2 ^ c) >>> c = Y := by
+  rw [Nat.shiftRight_eq_div_pow, Nat.mul_div_cancel _ (by positivity)]
+
+/-- one trip of the mpn_mod_1_1 loop -/
+theorem fold1Step_pair (d db0 db1 : Nat) (st : Nat × Nat) (V xj : Nat) (hst : Pair2 st V) (hxj : xj < B)
+    (hd : 2 * d ≤ B + 2) (hd0 : 0 < d) (hdb0 : db0 = B % d) (hdb1 : db1 = B ^ 2 % d) :
+    ∃ V', Pair2 (fold1Step db0 db1 st xj) V' ∧ V' % d = (V * B + xj) % d := by
+  obtain ⟨s1, s2, s3⟩ := hst
+  have hdb0lt : db0 < d := by rw [hdb0]; exact Nat.mod_lt _ hd0
+  have hdb1lt : db1 < d := by rw [hdb1]; exact Nat.mod_lt _ hd0
+  have hdB : d < B := by simp only [B_eq] at *; omega
+  have hm := mulAddLimb_pair st.2 db0 xj s2 (by omega) hxj
+  have b1 : st.2 * db0 ≤ (B - 1) * (d - 1) := Nat.mul_le_mul (by omega) (by omega)
+  have b2 : st.1 * db1 ≤ (B - 1) * (d - 1) := Nat.mul_le_mul (by omega) (by omega)
+  have hbound : st.1 * db1 + (st.2 * db0 + xj) < B * B := by
+    have : (B - 1) * (d - 1) + (B - 1) * (d - 1) + B ≤ B * B := by
+      simp only [B_eq] at *; omega
+    omega
+  have hm2 := mulAcc_pair st.1 db1 _ _ hm s1 (by omega) hbound
+  refine ⟨_, hm2, ?_⟩
+  simp only [v2] at s3
+  rw [← s3, hdb0, hdb1]
+  have e1 : st.1 * (B ^ 2 % d) + (st.2 * (B % d) + xj) ≡ st.1 * B ^ 2 + (st.2 * B + xj) [MOD d] :=
+    Nat.ModEq.add (Nat.ModEq.mul_left _ (Nat.mod_modEq _ _))
+      (Nat.ModEq.add_right _ (Nat.ModEq.mul_left _ (Nat.mod_modEq _ _)))
+  have e2 : (st.1 * B + st.2) * B + xj = st.1 * B ^ 2 + (st.2 * B + xj) := by ring
+  rw [e2]; exact e1
+
+theorem valMS_congr (d : Nat) (l : List Nat) (a a' : Nat) (h : a % d = a' % d) : valMS a l % d = valMS a' l % d := by
+  rw [valMS_mod, h, ← valMS_mod]
+
+theorem foldFin_spec (d db0 th tl : Nat) (hd0 : 0 < d) (hdB : d < B) (hdb0 : db0 = B % d) (hth : th < B) (htl : tl < B) :
+    ((foldFin db0 th tl).2 * B + (foldFin db0 th tl).1) % d = (th * B + tl) % d ∧
+    (foldFin db0 th tl).2 < d ∧ (foldFin db0 th tl).1 < B := by
+  have hdb0lt : db0 < d := by rw [hdb0]; exact Nat.mod_lt _ hd0
+  obtain ⟨e, hl⟩ := foldFin_pair db0 th tl (by omega) hth htl
+  refine ⟨?_, ?_, hl⟩
+  · rw [e, hdb0]
+    exact Nat.ModEq.add_right _ (Nat.ModEq.mul_left _ (Nat.mod_modEq _ _))
+  · have b1 : th * db0 ≤ (B - 1) * (d - 1) := Nat.mul_le_mul (by omega) (by omega)
+    have : (foldFin db0 th tl).2 * B < d * B := by
+      have : (B - 1) * (d - 1) + B ≤ d * B := by simp only [B_eq] at *; omega
+      omega
+    exact Nat.lt_of_mul_lt_mul_right this
+
+theorem mod_1_1Go_spec (d db0 db1 : Nat) (hd : 2 * d ≤ B + 2) (hd0 : 0 < d) (hdb0 : db0 = B % d)
+    (hdb1 : db1 = B ^ 2 % d) (rest : List Nat) (h l : Nat) (hh : h < B) (hl : l < B) (hrest : Limbs rest) :
+    ((mod_1_1Go db0 db1 rest h l).2 * B + (mod_1_1Go db0 db1 rest h l).1) % d = valMS (h * B + l) rest % d ∧
+    (mod_1_1Go db0 db1 rest h l).2 < d ∧ (mod_1_1Go db0 db1 rest h l).1 < B := by
+  have hdB : d < B := by simp only [B_eq] at *; omega
+  have hfold : ∀ (rest : List Nat) (st : Nat × Nat) (V : Nat), Pair2 st V → Limbs rest →
+      ∃ V', Pair2 (rest.foldl (fold1Step db0 db1) st) V' ∧ V' % d = valMS V rest % d := by
+    intro rest
+    induction rest with
+    | nil => intro st V hst _; exact ⟨V, hst, rfl⟩
+    | cons xj xs ih =>
+      intro st V hst hlim
+      have ⟨hxj, hxs⟩ := Limbs_cons.mp hlim
+      obtain ⟨V1, p1, e1⟩ := fold1Step_pair d db0 db1 st V xj hst hxj hd hd0 hdb0 hdb1
+      obtain ⟨V2, p2, e2⟩ := ih _ V1 p1 hxs
+      refine ⟨V2, by rw [List.foldl_cons]; exact p2, ?_⟩
+      rw [e2, valMS_cons]; exact valMS_congr d xs _ _ e1
+  obtain ⟨V', ⟨q1, q2, q3⟩, e⟩ := hfold rest (h, l) (h * B + l) ⟨hh, hl, rfl⟩ hrest
+  unfold mod_1_1Go
+  simp only
+  obtain ⟨f1, f2, f3⟩ := foldFin_spec d db0 _ _ hd0 hdB hdb0 q1 q2
+  refine ⟨?_, f2, f3⟩
+  rw [f1, ← e]; simp only [v2] at q3; rw [q3]
+
+theorem mod_1_1_wrap_spec (x : List Nat) (d : Nat) (hx : Limbs x) (hd0 : 0 < d) (hd : 2 * d ≤ B + 2) :
+    mod_1_1_wrap x d = val x % d := by
+  have hdB : d < B := by simp only [B_eq] at *; omega
+  rw [val_eq_valMS]
+  unfold mod_1_1_wrap
+  have hl := Limbs_reverse hx
+  cases hrev : x.reverse with
+  | nil => simp [valMS]
+  | cons h t =>
+    cases t with
+    | nil => simp [valMS]
+    | cons l rest =>
+      rw [hrev] at hl
+      have ⟨hh, hl'⟩ := Limbs_cons.mp hl
+      have ⟨hll, hrest⟩ := Limbs_cons.mp hl'
+      obtain ⟨hc, h1, h2⟩ := clz_spec d (by omega) hdB
+      simp only
+      rw [Nat.shiftLeft_eq d, Nat.mod_eq_of_lt h2, wrap_pow_first d hd0 hdB,
+        wrap_pow_step d _ (B % d) h1 h2 (Nat.mod_lt _ hd0), shr_cancel, shr_cancel]
+      have hdb1 : (B % d * B) % d = B ^ 2 % d := by rw [pow_two, Nat.mod_mul_mod]
+      obtain ⟨g1, g2, g3⟩ := mod_1_1Go_spec d (B % d) ((B % d * B) % d) hd hd0 rfl hdb1 rest h l hh hll hrest
+      rw [modWrapFinal_spec _ _ d _ hc h1 h2 g3 g2, g1, valMS_cons, valMS_cons, Nat.zero_mul, Nat.zero_add]
+
+theorem prod_le (a b d : Nat) (ha : a < B) (hb : b < d) : a * b ≤ (B - 1) * (d - 1) :=
+  Nat.mul_le_mul (by omega) (by omega)
+
+/-- one trip of the mpn_mod_1_2 loop -/
+theorem fold2Step_pair (d db0 db1 db2 xj1 xj th tl : Nat) (hxj1 : xj1 < B) (hxj : xj < B) (hth : th < B)
+    (htl : tl < B) (hd : 3 * d ≤ B + 3) (hd0 : 0 < d) (hdb0 : db0 = B % d) (hdb1 : db1 = B ^ 2 % d)
+    (hdb2 : db2 = B ^ 3 % d) :
+    ∃ V', Pair2 (fold2Step db0 db1 db2 xj1 xj th tl) V' ∧ V' % d = ((th * B + tl) * B ^ 2 + xj1 * B + xj) % d := by
+  have hl0 : db0 < d := by rw [hdb0]; exact Nat.mod_lt _ hd0
+  have hl1 : db1 < d := by rw [hdb1]; exact Nat.mod_lt _ hd0
+  have hl2 : db2 < d := by rw [hdb2]; exact Nat.mod_lt _ hd0
+  have hdB : d < B := by simp only [B_eq] at *; omega
+  have b0 := prod_le xj1 db0 d hxj1 hl0
+  have b1 := prod_le tl db1 d htl hl1
+  have b2 := prod_le th db2 d hth hl2
+  have hb : 3 * ((B - 1) * (d - 1)) + B ≤ B * B := by simp only [B_eq] at *; omega
+  have m0 := mulAddLimb_pair xj1 db0 xj hxj1 (by omega) hxj
+  have m1 := accMul_pair _ _ tl db1 m0 htl (by omega) (by omega)
+  have m2 := mulAcc_pair th db2 _ _ m1 hth (by omega) (by omega)
+  refine ⟨_, m2, ?_⟩
+  rw [hdb0, hdb1, hdb2]
+  have e1 : th * (B ^ 3 % d) + (xj1 * (B % d) + xj + tl * (B ^ 2 % d)) ≡
+      th * B ^ 3 + (xj1 * B + xj + tl * B ^ 2) [MOD d] :=
+    Nat.ModEq.add (Nat.ModEq.mul_left _ (Nat.mod_modEq _ _))
+      (Nat.ModEq.add (Nat.ModEq.add_right _ (Nat.ModEq.mul_left _ (Nat.mod_modEq _ _)))
+        (Nat.ModEq.mul_left _ (Nat.mod_modEq _ _)))
+  have e2 : (th * B + tl) * B ^ 2 + xj1 * B + xj = th * B ^ 3 + (xj1 * B + xj + tl * B ^ 2) := by ring
+  rw [e2]; exact e1
+
+theorem mod_1_2Go_pair (db0 db1 db2 xj1 xj : Nat) (xs : List Nat) (th tl : Nat) :
+    mod_1_2Go db0 db1 db2 (xj1 :: xj :: xs) th tl =
+      mod_1_2Go db0 db1 db2 xs (fold2Step db0 db1 db2 xj1 xj th tl).1 (fold2Step db0 db1 db2 xj1 xj th tl).2 := rfl
+theorem mod_1_2Go_one (db0 db1 db2 x0 th tl : Nat) :
+    mod_1_2Go db0 db1 db2 [x0] th tl =
+      foldFin db0 (fold1Step db0 db1 (th, tl) x0).1 (fold1Step db0 db1 (th, tl) x0).2 := rfl
+theorem mod_1_2Go_nil (db0 db1 db2 th tl : Nat) : mod_1_2Go db0 db1 db2 [] th tl = foldFin db0 th tl := rfl
+
+theorem mod_1_2Go_spec (d db0 db1 db2 : Nat) (hd : 3 * d ≤ B + 3) (hd0 : 0 < d) (hdb0 : db0 = B % d)
+    (hdb1 : db1 = B ^ 2 % d) (hdb2 : db2 = B ^ 3 % d) (rest : List Nat) :
+    ∀ th tl, th < B → tl < B → Limbs rest →
+    ((mod_1_2Go db0 db1 db2 rest th tl).2 * B + (mod_1_2Go db0 db1 db2 rest th tl).1) % d =
+      valMS (th * B + tl) rest % d ∧
+    (mod_1_2Go db0 db1 db2 rest th tl).2 < d ∧ (mod_1_2Go db0 db1 db2 rest th tl).1 < B := by
+  have hdB : d < B := by simp only [B_eq] at *; omega
+  induction rest using list_pair_induction with
+  | h0 =>
+    intro th tl hth htl _
+    rw [mod_1_2Go_nil]
+    exact foldFin_spec d db0 th tl hd0 hdB hdb0 hth htl
+  | h1 x0 =>
+    intro th tl hth htl hl
+    have ⟨hx0, _⟩ := Limbs_cons.mp hl
+    rw [mod_1_2Go_one]
+    obtain ⟨V', ⟨q1, q2, q3⟩, e⟩ := fold1Step_pair d db0 db1 (th, tl) (th * B + tl) x0 ⟨hth, htl, rfl⟩ hx0
+      (by omega) hd0 hdb0 hdb1
+    obtain ⟨f1, f2, f3⟩ := foldFin_spec d db0 _ _ hd0 hdB hdb0 q1 q2
+    refine ⟨?_, f2, f3⟩
+    simp only [v2] at q3
+    rw [f1, q3, e, valMS_cons]; rfl
+  | h2 xj1 xj xs ih =>
+    intro th tl hth htl hl
+    have ⟨hxj1, hl'⟩ := Limbs_cons.mp hl
+    have ⟨hxj, hxs⟩ := Limbs_cons.mp hl'
+    rw [mod_1_2Go_pair]
+    obtain ⟨V', ⟨q1, q2, q3⟩, e⟩ := fold2Step_pair d db0 db1 db2 xj1 xj th tl hxj1 hxj hth htl hd hd0 hdb0 hdb1 hdb2
+    obtain ⟨g1, g2, g3⟩ := ih _ _ q1 q2 hxs
+    refine ⟨?_, g2, g3⟩
+    simp only [v2] at q3
+    rw [g1, q3, valMS_cons, valMS_cons]
+    apply valMS_congr
+    have : ((th * B + tl) * B + xj1) * B + xj = (th * B + tl) * B ^ 2 + xj1 * B + xj := by ring
+    rw [e, this]
+
+/-- one trip of the mpn_mod_1_3 loop -/
+theorem fold3Step_pair (d db0 db1 db2 db3 xj2 xj1 xj th tl : Nat) (hxj2 : xj2 < B) (hxj1 : xj1 < B) (hxj : xj < B)
+    (hth : th < B) (htl : tl < B) (hd : 4 * d ≤ B + 4) (hd0 : 0 < d) (hdb0 : db0 = B % d)
+    (hdb1 : db1 = B ^ 2 % d) (hdb2 : db2 = B ^ 3 % d) (hdb3 : db3 = B ^ 4 % d) :
+    ∃ V', Pair2 (fold3Step db0 db1 db2 db3 xj2 xj1 xj th tl) V' ∧
+      V' % d = ((th * B + tl) * B ^ 3 + xj2 * B ^ 2 + xj1 * B + xj) % d := by
+  have hl0 : db0 < d := by rw [hdb0]; exact Nat.mod_lt _ hd0
+  have hl1 : db1 < d := by rw [hdb1]; exact Nat.mod_lt _ hd0
+  have hl2 : db2 < d := by rw [hdb2]; exact Nat.mod_lt _ hd0
+  have hl3 : db3 < d := by rw [hdb3]; exact Nat.mod_lt _ hd0
+  have hdB : d < B := by simp only [B_eq] at *; omega
+  have b0 := prod_le xj1 db0 d hxj1 hl0
+  have b1 := prod_le xj2 db1 d hxj2 hl1
+  have b2 := prod_le tl db2 d htl hl2
+  have b3 := prod_le th db3 d hth hl3
+  have hb : 4 * ((B - 1) * (d - 1)) + B ≤ B * B := by simp only [B_eq] at *; omega
+  have m0 := mulAddLimb_pair xj1 db0 xj hxj1 (by omega) hxj
+  have m1 := accMul_pair _ _ xj2 db1 m0 hxj2 (by omega) (by omega)
+  have m2 := accMul_pair _ _ tl db2 m1 htl (by omega) (by omega)
+  have m3 := mulAcc_pair th db3 _ _ m2 hth (by omega) (by omega)
+  refine ⟨_, m3, ?_⟩
+  rw [hdb0, hdb1, hdb2, hdb3]
+  have e1 : th * (B ^ 4 % d) + (xj1 * (B % d) + xj + xj2 * (B ^ 2 % d) + tl * (B ^ 3 % d)) ≡
+      th * B ^ 4 + (xj1 * B + xj + xj2 * B ^ 2 + tl * B ^ 3) [MOD d] :=
+    Nat.ModEq.add (Nat.ModEq.mul_left _ (Nat.mod_modEq _ _))
+      (Nat.ModEq.add (Nat.ModEq.add (Nat.ModEq.add_right _ (Nat.ModEq.mul_left _ (Nat.mod_modEq _ _)))
+        (Nat.ModEq.mul_left _ (Nat.mod_modEq _ _))) (Nat.ModEq.mul_left _ (Nat.mod_modEq _ _)))
+  have e2 : (th * B + tl) * B ^ 3 + xj2 * B ^ 2 + xj1 * B + xj =
+      th * B ^ 4 + (xj1 * B + xj + xj2 * B ^ 2 + tl * B ^ 3) := by ring
+  rw [e2]; exact e1
+
+/-- the one-limb tail of mod_1_3: `sh = 0; sl = xp[0]`, then tl·db0 and th·db1 -/
+theorem tail3b_pair (d db0 db1 x0 th tl : Nat) (hx0 : x0 < B) (hth : th < B) (htl : tl < B)
+    (hd : 2 * d ≤ B + 2) (hd0 : 0 < d) (hdb0 : db0 = B % d) (hdb1 : db1 = B ^ 2 % d) :
+    ∃ V', Pair2 (mulAcc th db1 (accMul (0, x0) tl db0)) V' ∧ V' % d = ((th * B + tl) * B + x0) % d := by
+  have hl0 : db0 < d := by rw [hdb0]; exact Nat.mod_lt _ hd0
+  have hl1 : db1 < d := by rw [hdb1]; exact Nat.mod_lt _ hd0
+  have hdB : d < B := by simp only [B_eq] at *; omega
+  have b0 := prod_le tl db0 d htl hl0
+  have b1 := prod_le th db1 d hth hl1
+  have hb : 2 * ((B - 1) * (d - 1)) + B ≤ B * B := by simp only [B_eq] at *; omega
+  have m0 : Pair2 (0, x0) x0 := ⟨B_pos, hx0, by simp [v2]⟩
+  have m1 := accMul_pair _ _ tl db0 m0 htl (by omega) (by omega)
+  have m2 := mulAcc_pair th db1 _ _ m1 hth (by omega) (by omega)
+  refine ⟨_, m2, ?_⟩
+  rw [hdb0, hdb1]
+  have e1 : th * (B ^ 2 % d) + (x0 + tl * (B % d)) ≡ th * B ^ 2 + (x0 + tl * B) [MOD d] :=
+    Nat.ModEq.add (Nat.ModEq.mul_left _ (Nat.mod_modEq _ _))
+      (Nat.ModEq.add_left _ (Nat.ModEq.mul_left _ (Nat.mod_modEq _ _)))
+  have e2 : (th * B + tl) * B + x0 = th * B ^ 2 + (x0 + tl * B) := by ring
+  rw [e2]; exact e1
+
+theorem mod_1_3Go_triple (db0 db1 db2 db3 xj2 xj1 xj : Nat) (xs : List Nat) (th tl : Nat) :
+    mod_1_3Go db0 db1 db2 db3 (xj2 :: xj1 :: xj :: xs) th tl =
+      mod_1_3Go db0 db1 db2 db3 xs (fold3Step db0 db1 db2 db3 xj2 xj1 xj th tl).1
+        (fold3Step db0 db1 db2 db3 xj2 xj1 xj th tl).2 := rfl
+theorem mod_1_3Go_two (db0 db1 db2 db3 x1 x0 th tl : Nat) :
+    mod_1_3Go db0 db1 db2 db3 [x1, x0] th tl =
+      foldFin db0 (fold2Step db0 db1 db2 x1 x0 th tl).1 (fold2Step db0 db1 db2 x1 x0 th tl).2 := rfl
+theorem mod_1_3Go_one (db0 db1 db2 db3 x0 th tl : Nat) :
+    mod_1_3Go db0 db1 db2 db3 [x0] th tl =
+      foldFin db0 (mulAcc th db1 (accMul (0, x0) tl db0)).1 (mulAcc th db1 (accMul (0, x0) tl db0)).2 := rfl
+theorem mod_1_3Go_nil (db0 db1 db2 db3 th tl : Nat) :
+    mod_1_3Go db0 db1 db2 db3 [] th tl = foldFin db0 th tl := rfl
+
+theorem list_triple_induction {P : List Nat → Prop} (h0 : P []) (h1 : ∀ x, P [x]) (h2 : ∀ x y, P [x, y])
+    (h3 : ∀ x y z xs, P xs → P (x :: y :: z :: xs)) : ∀ l, P l
+  | [] => h0
+  | [x] => h1 x
+  | [x, y] => h2 x y
+  | x :: y :: z :: xs => h3 x y z xs (list_triple_induction h0 h1 h2 h3 xs)
+
+theorem mod_1_3Go_spec (d db0 db1 db2 db3 : Nat) (hd : 4 * d ≤ B + 4) (hd0 : 0 < d) (hdb0 : db0 = B % d)
+    (hdb1 : db1 = B ^ 2 % d) (hdb2 : db2 = B ^ 3 % d) (hdb3 : db3 = B ^ 4 % d) (rest : List Nat) :
+    ∀ th tl, th < B → tl < B → Limbs rest →
+    ((mod_1_3Go db0 db1 db2 db3 rest th tl).2 * B + (mod_1_3Go db0 db1 db2 db3 rest th tl).1) % d =
+      valMS (th * B + tl) rest % d ∧
+    (mod_1_3Go db0 db1 db2 db3 rest th tl).2 < d ∧ (mod_1_3Go db0 db1 db2 db3 rest th tl).1 < B := by
+  have hdB : d < B := by simp only [B_eq] at *; omega
+  induction rest using list_triple_induction with
+  | h0 =>
+    intro th tl hth htl _
+    rw [mod_1_3Go_nil]
+    exact foldFin_spec d db0 th tl hd0 hdB hdb0 hth htl
+  | h1 x0 =>
+    intro th tl hth htl hl
+    have ⟨hx0, _⟩ := Limbs_cons.mp hl
+    rw [mod_1_3Go_one]
+    obtain ⟨V', ⟨q1, q2, q3⟩, e⟩ := tail3b_pair d db0 db1 x0 th tl hx0 hth htl (by omega) hd0 hdb0 hdb1
+    obtain ⟨f1, f2, f3⟩ := foldFin_spec d db0 _ _ hd0 hdB hdb0 q1 q2
+    refine ⟨?_, f2, f3⟩
+    simp only [v2] at q3
+    rw [f1, q3, e, valMS_cons]; rfl
+  | h2 x1 x0 =>
+    intro th tl hth htl hl
+    have ⟨hx1, hl'⟩ := Limbs_cons.mp hl
+    have ⟨hx0, _⟩ := Limbs_cons.mp hl'
+    rw [mod_1_3Go_two]
+    obtain ⟨V', ⟨q1, q2, q3⟩, e⟩ := fold2Step_pair d db0 db1 db2 x1 x0 th tl hx1 hx0 hth htl (by omega) hd0
+      hdb0 hdb1 hdb2
+    obtain ⟨f1, f2, f3⟩ := foldFin_spec d db0 _ _ hd0 hdB hdb0 q1 q2
+    refine ⟨?_, f2, f3⟩
+    simp only [v2] at q3
+    have : valMS (th * B + tl) [x1, x0] = (th * B + tl) * B ^ 2 + x1 * B + x0 := by
+      rw [valMS_cons, valMS_cons]; show ((th * B + tl) * B + x1) * B + x0 = _; ring
+    rw [f1, q3, e, this]
+  | h3 xj2 xj1 xj xs ih =>
+    intro th tl hth htl hl
+    have ⟨hxj2, hl'⟩ := Limbs_cons.mp hl
+    have ⟨hxj1, hl''⟩ := Limbs_cons.mp hl'
+    have ⟨hxj, hxs⟩ := Limbs_cons.mp hl''
+    rw [mod_1_3Go_triple]
+    obtain ⟨V', ⟨q1, q2, q3⟩, e⟩ := fold3Step_pair d db0 db1 db2 db3 xj2 xj1 xj th tl hxj2 hxj1 hxj hth htl hd hd0
+      hdb0 hdb1 hdb2 hdb3
+    obtain ⟨g1, g2, g3⟩ := ih _ _ q1 q2 hxs
+    refine ⟨?_, g2, g3⟩
+    simp only [v2] at q3
+    rw [g1, q3, valMS_cons, valMS_cons, valMS_cons]
+    apply valMS_congr
+    have : (((th * B + tl) * B + xj2) * B + xj1) * B + xj =
+        (th * B + tl) * B ^ 3 + xj2 * B ^ 2 + xj1 * B + xj := by ring
+    rw [e, this]
+
+theorem pow_mod_step (d k : Nat) : (B ^ k % d * B) % d = B ^ (k + 1) % d := by
+  rw [pow_succ, Nat.mod_mul_mod]
+
+theorem mod_1_2_wrap_spec (x : List Nat) (d : Nat) (hx : Limbs x) (hd0 : 0 < d) (hd : 3 * d ≤ B + 3) :
+    mod_1_2_wrap x d = val x % d := by
+  have hdB : d < B := by simp only [B_eq] at *; omega
+  rw [val_eq_valMS]
+  unfold mod_1_2_wrap
+  have hl := Limbs_reverse hx
+  cases hrev : x.reverse with
+  | nil => simp [valMS]
+  | cons h t =>
+    cases t with
+    | nil => simp [valMS]
+    | cons l rest =>
+      rw [hrev] at hl
+      have ⟨hh, hl'⟩ := Limbs_cons.mp hl
+      have ⟨hll, hrest⟩ := Limbs_cons.mp hl'
+      obtain ⟨hc, h1, h2⟩ := clz_spec d (by omega) hdB
+      have hm := fun k => Nat.mod_lt (B ^ k) hd0
+      have hB1 : B % d = B ^ 1 % d := by rw [pow_one]
+      simp only
+      rw [Nat.shiftLeft_eq d, Nat.mod_eq_of_lt h2, wrap_pow_first d hd0 hdB, hB1,
+        wrap_pow_step d _ _ h1 h2 (hm 1), pow_mod_step, wrap_pow_step d _ _ h1 h2 (hm 2), pow_mod_step,
+        shr_cancel, shr_cancel, shr_cancel]
+      obtain ⟨g1, g2, g3⟩ := mod_1_2Go_spec d _ _ _ hd hd0 hB1.symm rfl rfl rest h l hh hll hrest
+      rw [modWrapFinal_spec _ _ d _ hc h1 h2 g3 g2, g1, valMS_cons, valMS_cons, Nat.zero_mul, Nat.zero_add]
+
+theorem mod_1_3_wrap_spec (x : List Nat) (d : Nat) (hx : Limbs x) (hd0 : 0 < d) (hd : 4 * d ≤ B + 4) :
+    mod_1_3_wrap x d = val x % d := by
+  have hdB : d < B := by simp only [B_eq] at *; omega
+  rw [val_eq_valMS]
+  unfold mod_1_3_wrap
+  have hl := Limbs_reverse hx
+  cases hrev : x.reverse with
+  | nil => simp [valMS]
+  | cons h t =>
+    cases t with
+    | nil => simp [valMS]
+    | cons l rest =>
+      rw [hrev] at hl
+      have ⟨hh, hl'⟩ := Limbs_cons.mp hl
+      have ⟨hll, hrest⟩ := Limbs_cons.mp hl'
+      obtain ⟨hc, h1, h2⟩ := clz_spec d (by omega) hdB
+      have hm := fun k => Nat.mod_lt (B ^ k) hd0
+      have hB1 : B % d = B ^ 1 % d := by rw [pow_one]
+      simp only
+      rw [Nat.shiftLeft_eq d, Nat.mod_eq_of_lt h2, wrap_pow_first d hd0 hdB, hB1,
+        wrap_pow_step d _ _ h1 h2 (hm 1), pow_mod_step, wrap_pow_step d _ _ h1 h2 (hm 2), pow_mod_step,
+        wrap_pow_step d _ _ h1 h2 (hm 3), pow_mod_step,
+        shr_cancel, shr_cancel, shr_cancel, shr_cancel]
+      obtain ⟨g1, g2, g3⟩ := mod_1_3Go_spec d _ _ _ _ hd hd0 hB1.symm rfl rfl rfl rest h l hh hll hrest
+      rw [modWrapFinal_spec _ _ d _ hc h1 h2 g3 g2, g1, valMS_cons, valMS_cons, Nat.zero_mul, Nat.zero_add]
+
+/-- mpn_divrem_euclidean_r_1 returns the remainder on every branch -/
+theorem divrem_euclidean_r_1_spec (x : List Nat) (d : Nat) (hx : Limbs x) (hd0 : 0 < d) (hdB : d < B) :
+    divrem_euclidean_r_1 x d = val x % d := by
+  unfold divrem_euclidean_r_1
+  simp only [Bool.and_eq_true, decide_eq_true_eq]
+  have hH : HIGHBIT = 9223372036854775808 := by unfold HIGHBIT; rw [B_eq]
+  have hM : LIMB_MAX = 18446744073709551615 := by unfold LIMB_MAX; rw [B_eq]
+  split
+  · rename_i h
+    exact mod_1_3_wrap_spec x d hx hd0 (by have := h.1; rw [hH] at this; simp only [B_eq]; omega)
+  · split
+    · rename_i h
+      exact mod_1_2_wrap_spec x d hx hd0 (by have := h.1; rw [hM] at this; simp only [B_eq]; omega)
+    · split
+      · rename_i h
+        exact mod_1_1_wrap_spec x d hx hd0 (by have := h.1; rw [hH] at this; simp only [B_eq]; omega)
+      · obtain ⟨hs, h1, h2⟩ := clz_spec d (by omega) hdB
+        rw [Nat.shiftLeft_eq, Nat.mod_eq_of_lt h2]
+        have := euclidLoop_eq d _ hs h1 h2 x.reverse 0 hd0 (Limbs_reverse hx)
+        rw [Nat.zero_mul] at this
+        rw [this]
+        simp only
+        rw [shr_cancel, plainLoop_rem d _ _ hd0 (Limbs_reverse hx), ← val_eq_valMS]
+
+
+/-- the Hensel path of mpn_divrem_1 (divrem_1.c:102-108): remainder by mpn_divrem_euclidean_r_1,
+    quotient by the 2-adic division of n − r by the odd part of d, shifted right on the fly -/
+theorem divrem_1_hensel_path (u : List Nat) (d : Nat) (hu : Limbs u) (hne : u ≠ []) (hd0 : 0 < d) (hdB : d < B) :
+    Divrem1Spec 0 u d
+      ((rsh_divrem_hensel_qr_1 u (d >>> count_trailing_zeros d) (count_trailing_zeros d)
+        (divrem_euclidean_r_1 u d)).1, divrem_euclidean_r_1 u d) := by
+  rw [divrem_euclidean_r_1_spec u d hu hd0 hdB]
+  obtain ⟨hdvd, hodd, hi⟩ := ctz_spec d hd0 hdB
+  generalize count_trailing_zeros d = i at *
+  rw [Nat.shiftRight_eq_div_pow]
+  have hp : 0 < 2 ^ i := by positivity
+  obtain ⟨d', hd'⟩ := hdvd
+  have hdd : d / 2 ^ i = d' := by rw [hd', Nat.mul_div_cancel_left _ hp]
+  rw [hdd] at hodd ⊢
+  have hd'le : d' ≤ d := by rw [hd']; exact Nat.le_mul_of_pos_left _ hp
+  have hr : val u % d < d := Nat.mod_lt _ hd0
+  have hspec := rsh_divrem_hensel_qr_1_spec u d' i (val u % d) hu hne hodd (by omega) hi (by omega)
+  have hdvd' : d' ∣ val u - val u % d :=
+    Dvd.dvd.trans ⟨2 ^ i, by rw [hd', Nat.mul_comm]⟩ (Nat.dvd_sub_mod (val u))
+  obtain ⟨e1, e2, e3⟩ := hensel_exact u d' i (val u % d) _ hspec hodd (Nat.mod_le _ _) hdvd'
+  refine ⟨?_, hr, e2, by rw [e3, Nat.add_zero]⟩
+  simp only
+  rw [e1, Nat.div_div_eq_div_mul, Nat.mul_comm d' (2 ^ i), ← hd', pow_zero, Nat.mul_one]
+  have h1 : (val u - val u % d) / d = val u / d := by
+    have := Nat.div_add_mod (val u) d
+    have h2 : val u - val u % d = d * (val u / d) := by omega
+    rw [h2, Nat.mul_div_cancel_left _ hd0]
+  rw [h1, Nat.mul_comm]; exact Nat.div_add_mod _ _
+
+/-- mpn_divrem_1 on every path -/
+theorem divrem_1_spec (qxn : Nat) (u : List Nat) (d : Nat) (hu : Limbs u) (hd0 : 0 < d) (hdB : d < B) :
+    Divrem1Spec qxn u d (divrem_1 qxn u d) := by
+  by_cases hnh : (decide (qxn = 0) && (decide (d ≤ HIGHBIT / 2 + 1) &&
+      ABOVE_THRESHOLD u.length Gen.DIVREM_EUCLID_HENSEL_THRESHOLD)) = false
+  · exact divrem_1_spec_nohensel qxn u d hu hd0 hdB hnh
+  · rw [Bool.not_eq_false] at hnh
+    unfold divrem_1
+    simp only [hnh, if_true]
+    split
+    · rename_i h0
+      have hu0 : u = [] := List.eq_nil_of_length_eq_zero (by omega)
+      have hq0 : qxn = 0 := by omega
+      subst hu0 hq0
+      exact ⟨by simp, hd0, Limbs_nil, rfl⟩
+    · rename_i hn0
+      have hq : qxn = 0 := by
+        simp only [Bool.and_eq_true, decide_eq_true_eq] at hnh; exact hnh.1
+      subst hq
+      have hne : u ≠ [] := by
+        intro h; subst h; simp at hn0
+      exact divrem_1_hensel_path u d hu hne hd0 hdB
 
 
 end Mpir.DivWord
